@@ -19,6 +19,7 @@ import (
 	"go.opentelemetry.io/otel/attribute"
 	"go.opentelemetry.io/otel/metric"
 	sdk "go.opentelemetry.io/otel/sdk/metric"
+	"go.opentelemetry.io/otel/sdk/instrumentation"
 	"go.opentelemetry.io/otel/sdk/metric/exemplar"
 	"go.opentelemetry.io/otel/sdk/metric/metricdata"
 	"go.opentelemetry.io/otel/sdk/resource"
@@ -408,7 +409,23 @@ func (h *harness) newReal(c *runCfg) (rr *realRun, err error) {
 	popts := []sdk.Option{sdk.WithReader(rr.reader), sdk.WithResource(h.res), sdk.WithExemplarFilter(exemplar.AlwaysOffFilter)}
 	var views []sdk.View
 	if c.decoy {
-		views = append(views, sdk.NewView(sdk.Instrument{Name: "other"}, sdk.Stream{Aggregation: sdk.AggregationDrop{}}))
+		// views that must not select the instrument: another name, and wildcard names whose other
+		// criteria (scope, unit, kind, description) do not fit; each would drop or scrub it
+		otherKind := sdk.InstrumentKindCounter
+		if kinds[c.kind].sdk == otherKind {
+			otherKind = sdk.InstrumentKindGauge
+		}
+		// (a view that matched would add a stream with its own description to every collection -- a
+		// wildcard view may not rename; a Drop view would go unnoticed next to the real view's stream)
+		views = append(views,
+			sdk.NewView(sdk.Instrument{Name: "other"}, sdk.Stream{Aggregation: sdk.AggregationDrop{}}),
+			sdk.NewView(sdk.Instrument{Name: "other"}, sdk.Stream{Name: "decoy-name"}),
+			sdk.NewView(sdk.Instrument{Name: "*", Scope: instrumentation.Scope{Name: "another-scope"}}, sdk.Stream{Description: "decoy-scope-name"}),
+			sdk.NewView(sdk.Instrument{Name: "m?", Scope: instrumentation.Scope{Name: "c12", Version: "v-other"}}, sdk.Stream{Description: "decoy-scope-version", AttributeFilter: attribute.NewAllowKeysFilter()}),
+			sdk.NewView(sdk.Instrument{Name: "**", Unit: "never"}, sdk.Stream{Description: "decoy-unit"}),
+			sdk.NewView(sdk.Instrument{Name: "*", Kind: otherKind}, sdk.Stream{Description: "decoy-kind"}),
+			sdk.NewView(sdk.Instrument{Name: "*", Description: "never"}, sdk.Stream{Description: "decoy-description"}),
+		)
 	}
 	for _, v := range c.views {
 		views = append(views, v.build(c.kind))
